@@ -101,7 +101,9 @@ RANK_NAMES = ["M", "K", "N", "P", "Q"]
 # a battery of read-only queries (C10: they change nothing), then the last element by append -
 # and the finished tensor is queried once more, so anything a read remembers (a memoised active
 # range, shape, maximum coordinate or default) is stale by the time the operation under test runs.
-MODE = {"vkind": "int", "touch": False}
+# late_default: a tensor's fibers are built without being told the leaf default (an unowned fiber then
+# guesses 0); only the tensor is (Tensor.setDefault) - once owned, the rank's attributes are what counts.
+MODE = {"vkind": "int", "touch": False, "late_default": False}
 
 
 class SubInt(int):
@@ -111,11 +113,12 @@ class SubInt(int):
 def set_mode(mod, case):
     import hashlib, json
     if not getattr(mod, "REPR_MODES", True):
-        MODE.update(vkind="int", touch=False)
+        MODE.update(vkind="int", touch=False, late_default=False)
         return
     h = int(hashlib.sha1(json.dumps(case, sort_keys=True).encode()).hexdigest()[:8], 16)
     MODE["vkind"] = ["int", "int", "float", "sub"][h % 4]
     MODE["touch"] = (h // 4) % 2 == 1
+    MODE["late_default"] = (h // 8) % 2 == 1
 
 
 def dress(v):
@@ -180,7 +183,7 @@ def build_fiber(t, d=0):
 def build_tensor(t, depth, shapes=None, d=0, rank_ids=None, name=None):
     from fibertree import Tensor
     rank_ids = rank_ids or RANK_NAMES[:depth]
-    root = build_fiber(t, d)
+    root = build_fiber(t, 0 if MODE["late_default"] else d)
     kw = {}
     if shapes is not None:
         kw["shape"] = list(shapes)
